@@ -64,7 +64,7 @@ def run(files, harnesses, repo=None, tag="k", timeout=420, harness_timeout=90):
         env = dict(os.environ)
         env["CARGO_NET_OFFLINE"] = "true"
         env.pop("RUSTFLAGS", None)
-        tdir = os.path.join(frontend.CACHE, "target-kani-%s" % tag)
+        tdir = os.path.join(frontend.CACHE, "target-kani")      # one build cache for all properties (cargo serialises on its lock)
         cmd = ["cargo", "kani", "--target-dir", tdir, "-Z", "concrete-playback", "--concrete-playback=print",
                "-Z", "unstable-options", "--harness-timeout", "%ds" % harness_timeout]
         for h in harnesses:
